@@ -501,7 +501,7 @@ theorem slice_self_length (B : Bytes) (lo len : Nat) :
   · rw [if_neg h1, if_neg (by omega)]
 
 theorem goodQ_exact (P : Params) (B : Bytes) : GoodQ P B (QExact P B) :=
-  ⟨fun _ hg => ⟨rfl, hg⟩, fun c d h => by rw [h.1]; exact slice_self_length B _ _⟩
+  ⟨fun _ hg => ⟨rfl, hg⟩, fun _ _ h => by rw [h.1]; exact slice_self_length B _ _⟩
 
 theorem goodQ_prefix (P : Params) (B : Bytes) : GoodQ P B (QPrefix P B) :=
   ⟨fun c hg => ⟨slice_self_length B _ _, hg⟩, fun _ _ h => h.1⟩
